@@ -37,14 +37,19 @@ MANIFEST = dict(
          "coefficients between outputs of the real code: knot continuity of value and slope, derivative = "
          "derivative of value inside every interval (exact finite-difference identities for piecewise cubics), "
          "zero end curvature (natural cubic), periodic joins of value/slope/curvature, linearity in the ordinates "
-         "(interpolation and fit), a fit reproduces a spline that lies in its space (same and refined grid).",
-    note="NOT covered: least-squares optimality of Fit for data outside the spline space (only its consequences "
-         "linearity, smoothness, boundary conditions and reproduction of in-space functions are checked), "
-         "derivative-of-value for curved data beyond the piecewise-polynomial identities inside one interval, "
-         "grids with more than 6 knots except the uniform 'long' family, non-lattice abscissae, --nocut, "
-         "splineDerivativeZero, AkimaSpline::Fit (throws by design), yerr columns. Trusted: TLC, the lattice "
-         "argument (all abscissae dyadic, decisions exact), 1e-9 relative tolerance (2e-9 at the 10-digit file "
-         "level), the text driver protocol, Python float conversion.")
+         "(interpolation and fit), a fit reproduces a spline that lies in its space (same and refined grid), and the "
+         "residual of a fit of data outside the space is orthogonal to every cardinal spline of the fit grid "
+         "(normal equations, a bilinear relation).",
+    note="NOT covered: least-squares optimality of Fit beyond its first-order condition on small lattice data "
+         "sets (normal equations against the cardinal splines of the fit grid, data on the quarter points of 3-5 "
+         "knot grids; plus its consequences linearity, smoothness, boundary conditions, reproduction of in-space "
+         "functions) - no claim for general/ill-conditioned data, --nocut, fit grids not aligned with the data; "
+         "derivative-of-value for curved data beyond the piecewise-polynomial identities inside one interval "
+         "(nothing about approximating the derivative of the sampled function); grids with more than 6 knots except "
+         "the patterned 40/200-knot family; non-lattice abscissae; splineDerivativeZero; AkimaSpline::Fit (throws by "
+         "design); yerr columns. Trusted: TLC, the lattice argument (abscissae dyadic, discrete decisions exact; "
+         "grid counts also on a decimal lattice), tolerance 1e-9 relative (2e-9 at the 10-digit file level), the "
+         "text driver protocol, Python float conversion.")
 
 BCNAME = {0: "natural", 1: "periodic", 2: "derivzero"}
 
@@ -264,12 +269,17 @@ def run_lib(ctx, exe, recs, label, exact_abs=1e-12):
 # tables: grid + smooth
 # ------------------------------------------------------------------------------------------------
 def run_tables(ctx, exe, recs):
+    """grid vectors are replayed on the dyadic lattice (k/16) and on a decimal one (k/10: steps like 0.1, where the
+    quotient (max-min)/step is NOT exact in binary and the code's +1.00000001 guard is what makes the count right)"""
     items = []
     tmp = vlib.scratch_file("c12-table.tab")
     for i, r in enumerate(recs):
         if r["fam"] == "grid":
-            items.append((i, ["new g lin e0", "grid g %s %s %s" % (fx(r["mn"]), fx(r["mx"]), fx(r["h"])),
-                              "tgrid %s %s %s" % (fx(r["mn"]), fx(r["mx"]), fx(r["h"]))]))
+            cmds = []
+            for xd in (XD, 10.0):
+                a = "%r %r %r" % (r["mn"] / xd, r["mx"] / xd, r["h"] / xd)
+                cmds += ["new g lin e0", "grid g " + a, "tgrid " + a]
+            items.append((i, cmds))
         else:
             n = len(r["y"])
             items.append((i, ["tnew %d %s %s %s" % (n, " ".join(repr(0.5 * j) for j in range(n)),
@@ -284,20 +294,21 @@ def run_tables(ctx, exe, recs):
             continue
         out = results[i]
         if r["fam"] == "grid":
-            for lines, exp, who in ((out[1], [k / XD for k in r["sg"]], "Spline::GenerateGrid"),
-                                    (out[2], [p[0] / p[1] / XD for p in r["tg"]], "Table::GenerateGridSpacing")):
-                p = lines[0].split() if lines else ["?"]
-                if p[0] != "grid":
-                    ctx.violation("%s:exception" % who, "%s(%s,%s,%s): %s" % (who, r["mn"] / XD, r["mx"] / XD, r["h"] / XD, lines), r)
-                    continue
-                got = [float(t) for t in p[2:]]
-                if int(p[1]) != r["n"] or len(got) != r["n"]:
-                    ctx.violation("%s:count" % who, "%s(%s,%s,%s): %s points, expected %d" % (
-                        who, r["mn"] / XD, r["mx"] / XD, r["h"] / XD, p[1], r["n"]), r)
-                elif not vlib.close(got[-1], exp[-1], 0, 0):
-                    ctx.violation("%s:end-point" % who, "%s: last point %r, expected exactly %r" % (who, got[-1], exp[-1]), r)
-                elif any(not vlib.close(a, b, 1e-12, 1e-12) for a, b in zip(got, exp)):
-                    ctx.violation("%s:points" % who, "%s: points %s expected %s" % (who, got, exp), r)
+            for base, xd, lat in ((0, XD, "dyadic"), (3, 10.0, "decimal")):
+                for lines, exp, who in ((out[base + 1], [k / xd for k in r["sg"]], "Spline::GenerateGrid"),
+                                        (out[base + 2], [p[0] / p[1] / xd for p in r["tg"]], "Table::GenerateGridSpacing")):
+                    arg = "(%r, %r, %r)" % (r["mn"] / xd, r["mx"] / xd, r["h"] / xd)
+                    p = lines[0].split() if lines else ["?"]
+                    if p[0] != "grid":
+                        ctx.violation("%s:exception" % who, "%s%s: %s" % (who, arg, lines), r)
+                        continue
+                    got = [float(t) for t in p[2:]]
+                    if int(p[1]) != r["n"] or len(got) != r["n"]:
+                        ctx.violation("%s:count:%s" % (who, lat), "%s%s: %s points, expected %d" % (who, arg, p[1], r["n"]), r)
+                    elif got[-1] != exp[-1]:
+                        ctx.violation("%s:end-point" % who, "%s%s: last point %r, expected exactly %r" % (who, arg, got[-1], exp[-1]), r)
+                    elif any(not vlib.close(a, b, 1e-12, 1e-12) for a, b in zip(got, exp)):
+                        ctx.violation("%s:points" % who, "%s%s: points %s expected %s" % (who, arg, got, exp), r)
             continue
         bad = [ln for o in out for ln in o if ln.startswith("exc")]
         if bad:
@@ -452,8 +463,8 @@ def run(ctx):
         "relations are exact identities for piecewise polynomials of degree <= 3 evaluated inside one interval "
         "((deg+1)-th differences vanish; one-sided difference formulas exact for cubics); tolerance 1e-9 of the sum of "
         "|coef*obs| (2e-9 for files with 10 significant digits)",
-        "least-squares optimality for data outside the spline space and derivative-of-value for non-piecewise-"
-        "polynomial notions are NOT covered"]
+        "least-squares optimality only through the normal equations on small lattice data sets; derivative-of-value "
+        "only as piecewise-polynomial identity inside one interval (see MANIFEST note for what is NOT covered)"]
 
     if getattr(ctx, "replay", None):
         rec = json.load(open(ctx.replay))["replay"]
